@@ -111,6 +111,79 @@ R20.6 exit status: ErrNoNewVersion maps to the distinct non-zero code, any other
 		okFlow = okFlow && strings.Contains(nodeString(nt.Body), pv+".Unmarshal(t)")
 	}
 	c.Check(okBind && okFlow && tagKey != "", "R20.2", "NewTagCmd|dry-run-binding", r.Pos(ntc.Pos()), "flag bound under "+tagKey+" on the instance the Tagger is unmarshalled from", "the dry-run flag does not reach Tagger.DryRun: "+bindDetail+"; it must be bound under the Tagger's mapstructure key on the viper instance passed to NewTagger")
+	// the Tagger's key has one writer per viper instance: a second BindPFlag/Set/SetDefault/BindEnv under the
+	// same key replaces the tag command's binding (and with it the default true) unless the two commands are
+	// given distinct instances, i.e. every *viper.Viper handed out in the package is created by viper.New() in
+	// the call that returns it (round 7: a memoised newViper plus a push command binding its own --dry-run)
+	{
+		var writers []string
+		for _, g := range pkgFuncDecls(p) {
+			ast.Inspect(g.Body, func(n ast.Node) bool {
+				call, ok := n.(*ast.CallExpr)
+				if !ok || len(call.Args) == 0 {
+					return true
+				}
+				name := calleeName(info, call)
+				isW := false
+				for _, m := range []string{"BindPFlag", "Set", "SetDefault", "BindEnv", "RegisterAlias", "BindFlagValue"} {
+					if strings.HasSuffix(name, "viper.Viper)."+m) || name == "github.com/spf13/viper."+m {
+						isW = true
+					}
+				}
+				if !isW {
+					return true
+				}
+				if tv := info.Types[call.Args[0]]; tv.Value != nil && tv.Value.Kind() == constant.String && constant.StringVal(tv.Value) == tagKey {
+					writers = append(writers, r.Pos(call.Pos()))
+				}
+				return true
+			})
+		}
+		shared := ""
+		if len(writers) > 1 {
+			isViperPtr := func(t types.Type) bool {
+				return strings.HasSuffix(types.TypeString(t, nil), "spf13/viper.Viper")
+			}
+			for _, nm := range p.Types.Scope().Names() {
+				if v, ok := p.Types.Scope().Lookup(nm).(*types.Var); ok && isViperPtr(v.Type()) {
+					shared = "package-level variable " + nm + " holds a viper instance"
+				}
+			}
+			for _, g := range pkgFuncDecls(p) {
+				if g.Type.Results == nil || len(g.Type.Results.List) == 0 || !isViperPtr(info.TypeOf(g.Type.Results.List[0].Type)) {
+					continue
+				}
+				fresh := map[types.Object]bool{}
+				ast.Inspect(g.Body, func(n ast.Node) bool {
+					if as, ok := n.(*ast.AssignStmt); ok && as.Tok == token.DEFINE && len(as.Lhs) == 1 && len(as.Rhs) == 1 {
+						if call, ok := as.Rhs[0].(*ast.CallExpr); ok && calleeName(info, call) == "github.com/spf13/viper.New" {
+							if id, ok := as.Lhs[0].(*ast.Ident); ok {
+								fresh[info.Defs[id]] = true
+							}
+						}
+					}
+					return true
+				})
+				ast.Inspect(g.Body, func(n ast.Node) bool {
+					if _, ok := n.(*ast.FuncLit); ok {
+						return false
+					}
+					if rs, ok := n.(*ast.ReturnStmt); ok && len(rs.Results) > 0 {
+						id, ok := ast.Unparen(rs.Results[0]).(*ast.Ident)
+						isNew := false
+						if call, ok2 := ast.Unparen(rs.Results[0]).(*ast.CallExpr); ok2 && calleeName(info, call) == "github.com/spf13/viper.New" {
+							isNew = true
+						}
+						if !isNew && !(ok && fresh[info.Uses[id]]) {
+							shared = g.Name.Name + " can return a viper instance it did not create in that call (" + r.Pos(rs.Pos()) + ")"
+						}
+					}
+					return true
+				})
+			}
+		}
+		c.Check(len(writers) >= 1 && shared == "", "R20.2", "dry-run-key|single-writer-per-instance", r.Pos(ntc.Pos()), "the Tagger's dry-run key is written once per viper instance", fmt.Sprintf("the key %q is written at %d sites (%s) and the instances are not provably distinct: %s; the later binding replaces the tag command's, and with it the default true", tagKey, len(writers), strings.Join(writers, ", "), shared))
+	}
 	// ---- R20.3
 	// Every call of a mutating go-git API must be dominated by three facts: DryRun tested false, the
 	// requested version strictly greater than the largest existing one, and a clean work tree. A fact
